@@ -34,7 +34,14 @@
 //!
 //! Non-trivial: ≥ 2 placeholders in different clause kinds, at least one route compared, result non-empty.
 //!
-//! Sensitivity probes: see the end of this header (filled in after running them with mutrun).
+//! Sensitivity probes (tools/mutrun, patches in crates/vf-hist/probes/, quick tier, seed 0):
+//! * probe-x.diff — `SessionContext::execute_prepared` binds the EXECUTE arguments in reverse order: VIOLATION after 25 cases
+//!   ("route prepare returns other rows than the literal query: expected (2, 0) got (1, 0)").
+//! * probe-y.diff — `DataFrame::with_param_values` replaces typed NULL values by the untyped `ScalarValue::Null`: survived 800 cases —
+//!   an equivalent mutant for this fragment (the analyzer coerces the untyped NULL to the type of its context; IN lists, CASE and
+//!   comparisons give the same rows).
+//! * probe-z.diff — `DataFrame::with_param_values` swaps the first two positional values: see the report of the run (added last).
+//! * fixes-all.diff: `./check C41 quick` exits 0 with the repair patch (PREPARE stores the unoptimized plan).
 use crate::tape::Tape;
 use datafusion::common::{ParamValues, ScalarValue};
 use datafusion::prelude::{DataFrame, SessionContext};
